@@ -28,6 +28,9 @@
    sumline <hex text> <hex of sha256hex(text after its first newline) | -> <T|F: yaml.Unmarshal makes the document of the body out of the whole text>
         the byte-level integrity check of loadByteArray (Model/LeaseBytes.v sum_verdict) on a text whose body is a
         valid lease document: observation loaded | reset
+   savedir <tmp: hex | - | absent> <lease before: hex | - | absent> <hex of the bytes this save writes>
+        saveConfig from an arbitrary directory state (Model/LeaseBytes.v save_fs): observation
+        lease=<hex> tmp=<hex|-|absent>  — the two files after the save
    consts      the constants the model hard-codes, against the values read from the Go source (go/parser):
         checksum key, temp-file suffix, StateFree/Discover/Allocated, StageNormal/Redirected, default lease
         duration (ns), the netfilter DNS server
@@ -297,7 +300,25 @@ Definition sumline (args : list string) : string :=
 
 Definition consts_line : string :=
   string_of_bytes sum_key ++ "|" ++ string_of_bytes tmp_suffix ++ "|0,1,2|1,3|" ++ dec_of_Z four_hours ++ "|" ++
-  show_addr cloudflare_family1.
+  show_addr cloudflare_family1 ++ "|trunc=" ++ show_bool (match f_tmp (fs_open_tmp true {| f_lease := None; f_tmp := Some [1] |}) with
+                                                            | Some [] => true | _ => false end).
+
+Definition file_of_tok (s : string) : option (option bytes) :=
+  if String.eqb s "absent" then Some None else option_map Some (bytes_of_tok s).
+Definition show_file (f : option bytes) : string :=
+  match f with None => "absent" | Some b => tok_of_bytes b end.
+
+Definition savedir (args : list string) : string :=
+  match args with
+  | [t; l; c] =>
+      match file_of_tok t, file_of_tok l, bytes_of_tok c with
+      | Some tmp, Some lease, Some content =>
+          let fs := save_fs content {| f_lease := lease; f_tmp := tmp |} in
+          out3 ("lease=" ++ show_file (f_lease fs) ++ " tmp=" ++ show_file (f_tmp fs)) "-" "-"
+      | _, _, _ => BADARGS
+      end
+  | _ => BADARGS
+  end.
 
 (* ---------------- dispatch ---------------- *)
 Definition input_of_args (a : list string) : option input :=
@@ -344,6 +365,7 @@ Definition dispatch (kind : string) (args : list string) : string :=
   else if String.eqb kind "renew" || String.eqb kind "offer" then serve kind args
   else if String.eqb kind "cont" then cont args
   else if String.eqb kind "sumline" then sumline args
+  else if String.eqb kind "savedir" then savedir args
   else if String.eqb kind "consts" then out3 consts_line "-" "-"
   else if String.eqb kind "save" then
     match all_some (map rec_of_tok (filter (fun a => negb (String.eqb a "-")) args)) with
